@@ -8,7 +8,7 @@ import ast
 import hashlib
 import os
 
-REPO_LIB = os.environ.get('VERIF_REPO_LIB', '/repo/lib')
+REPO_LIB = os.environ.get('VERIF_REPO_LIB') or os.path.join(os.environ.get('VERIF_REPO', '/repo'), 'lib')
 VERIF_ROOT = os.path.dirname(os.path.dirname(os.path.dirname(os.path.abspath(__file__))))
 
 _modules = {}
